@@ -246,6 +246,58 @@ pub fn check_state(ex: &Exec, check_c: bool, stats: &mut HashMap<String, u64>) -
     None
 }
 
+/// what load_buffer must leave alone, captured before the call: the element sequence of every file of the model
+pub struct LoadSnap {
+    model: usize,
+    files: Vec<(ArxmlFile, Vec<Element>)>,
+    text: Vec<u8>,
+    strict: bool,
+}
+
+pub fn snap_load(ex: &Exec, mi: usize, text: &[u8], strict: bool) -> Option<LoadSnap> {
+    let m = ex.models.get(mi)?;
+    let files = m.files().map(|f| (f.clone(), f.elements_dfs().map(|x| x.1).collect())).collect();
+    Some(LoadSnap { model: mi, files, text: text.to_vec(), strict })
+}
+
+/// after a successful load: every file that was there has exactly the elements it had (same objects, same order), and
+/// the new file has exactly the elements its text has when loaded alone (names with paths, as a multiset)
+pub fn check_load(ex: &Exec, s: &LoadSnap, stats: &mut HashMap<String, u64>) -> Option<Fail> {
+    let m = &ex.models[s.model];
+    *stats.entry("loads_checked".into()).or_insert(0) += 1;
+    for (f, before) in &s.files {
+        let after: Vec<Element> = f.elements_dfs().map(|x| x.1).collect();
+        if &after != before {
+            let gained: Vec<String> = after.iter().filter(|e| !before.contains(e)).take(3).map(describe).collect();
+            let lost: Vec<String> = before.iter().filter(|e| !after.contains(e)).take(3).map(describe).collect();
+            return fail(
+                "load-changed-other-file",
+                format!("model {} file {}: {} elements before the load, {} after; gained [{}] lost [{}]", s.model, f.filename().display(), before.len(), after.len(), gained.join(";"), lost.join(";")),
+            );
+        }
+    }
+    let newf: Vec<ArxmlFile> = m.files().filter(|f| !s.files.iter().any(|(g, _)| g == f)).collect();
+    if newf.len() == 1 {
+        let fresh = AutosarModel::new();
+        if fresh.load_buffer(&s.text, "alone.arxml", s.strict).is_ok() {
+            let mut alone: Vec<String> = fresh.elements_dfs().map(|(_, e)| describe(&e)).collect();
+            let mut merged: Vec<String> = newf[0].elements_dfs().map(|(_, e)| describe(&e)).collect();
+            alone.sort();
+            merged.sort();
+            if alone != merged {
+                let extra: Vec<String> = merged.iter().filter(|x| !alone.contains(x)).take(3).cloned().collect();
+                let missing: Vec<String> = alone.iter().filter(|x| !merged.contains(x)).take(3).cloned().collect();
+                return fail(
+                    "loaded-file-view-differs",
+                    format!("model {} file {}: {} elements in the merged model, {} when its text is loaded alone; only merged [{}] only alone [{}]",
+                        s.model, newf[0].filename().display(), merged.len(), alone.len(), extra.join(";"), missing.join(";")),
+                );
+            }
+        }
+    }
+    None
+}
+
 /// what remove_file must do, captured before the call
 pub struct RemoveSnap {
     model: usize,
@@ -390,6 +442,10 @@ pub struct Shape {
     cross_model: bool,
     /// the operation targets a SHORT-NAME, or a SHORT-NAME of the model carries its own file set
     shortname_local: bool,
+    /// load / duplicate into (of) a model whose root is not part of all of the model's files
+    root_partial: bool,
+    /// duplicate of a model whose files have different versions (the copy is filtered for the smallest one: C13)
+    mixed_versions: bool,
     /// add_to_file with a file whose version differs from the version the element was built for
     lower_version: bool,
 }
@@ -403,7 +459,7 @@ fn subtree_has_local(e: &Element) -> bool {
 }
 
 pub fn shape_of(ex: &Exec, op: &Op) -> Shape {
-    let mut s = Shape { add_removed_file: false, root_loses_last: false, move_with_local: false, cross_model: false, shortname_local: false, lower_version: false };
+    let mut s = Shape { add_removed_file: false, root_loses_last: false, move_with_local: false, cross_model: false, shortname_local: false, root_partial: false, mixed_versions: false, lower_version: false };
     match op {
         Op::AddToFile(h, f) => {
             if let (Some(e), Some(file)) = (ex.handles.get(*h), ex.files.get(*f)) {
@@ -431,6 +487,17 @@ pub fn shape_of(ex: &Exec, op: &Op) -> Shape {
                     s.root_loses_last = m.files().count() > 1 && m.files().any(|x| x == *file) && set.len() == 1 && set.contains(&file.downgrade());
                 }
                 s.shortname_local = shortname_with_local(m);
+            }
+        }
+        Op::Load(m, ..) | Op::Duplicate(m) => {
+            if let Some(m) = ex.models.get(*m) {
+                let n = m.files().count();
+                s.root_partial = match m.root_element().file_membership() {
+                    Ok((_, set)) => set.len() < n,
+                    Err(_) => n > 0,
+                };
+                let vs: HashSet<u32> = m.files().map(|f| f.version() as u32).collect();
+                s.mixed_versions = matches!(op, Op::Duplicate(_)) && vs.len() > 1;
             }
         }
         Op::Move(h, o) | Op::MoveAt(h, o, _) => {
@@ -461,7 +528,12 @@ pub fn known_key(shape: &Shape, op: &Op, result: &str, f: &Fail) -> Option<&'sta
         Op::AddToFile(..) if ok && shape.lower_version && matches!(f.kind, "text-loads-with-warning" | "text-does-not-load") && f.detail.contains("not_allowed_in") => {
             Some("add-to-file-ignores-version")
         }
-        Op::Load(..) | Op::Duplicate(..) if ok && matches!(f.kind, "not-in-parent") => Some("merge-membership-inconsistent"),
+        // only the recorded shape: the root of the model is not in all of its files (every other inconsistency after a merge is new)
+        Op::Load(..) | Op::Duplicate(..) if ok && shape.root_partial && matches!(f.kind, "not-in-parent" | "load-changed-other-file") => Some("merge-membership-inconsistent"),
+        // C13-dup-version-filter seen from here: the copy lacks elements, membership is zipped over walks of different shape
+        Op::Duplicate(..) if ok && shape.mixed_versions && matches!(f.kind, "text-loads-with-warning" | "text-does-not-load" | "loaded-differs-from-view" | "not-in-parent") => {
+            Some("duplicate-version-filter")
+        }
         Op::AddToFile(..) | Op::RemoveFromFile(..) | Op::RemoveFile(..)
             if shape.shortname_local
                 && matches!(f.kind, "text-loads-with-warning" | "text-does-not-load" | "kept-although-only-in-removed-file" | "other-file-changed" | "loaded-differs-from-view") =>
@@ -511,6 +583,10 @@ impl<'a> Gen<'a> {
             Op::RemoveFile(m, f) => snap_remove(&self.ex, *m, *f),
             _ => None,
         };
+        let lsnap = match &op {
+            Op::Load(m, text, _, strict) => snap_load(&self.ex, *m, text, *strict),
+            _ => None,
+        };
         if let Op::RemoveFile(_, f) = &op {
             self.removed_files.push(*f);
         }
@@ -548,6 +624,9 @@ impl<'a> Gen<'a> {
             let mut f = None;
             if let Some(s) = &snap {
                 f = check_remove(&self.ex, s, &mut st);
+            }
+            if let (Some(s), true) = (&lsnap, r.starts_with("R OK")) {
+                f = check_load(&self.ex, s, &mut st);
             }
             if f.is_none() {
                 f = check_state(&self.ex, !self.merged, &mut st);
@@ -699,6 +778,9 @@ impl<'a> Gen<'a> {
                         self.push(Op::Duplicate(m))?;
                     }
                 }
+                "merge3" => {
+                    self.merge3()?;
+                }
                 _ => {}
             }
             return Some(());
@@ -817,6 +899,102 @@ impl<'a> Gen<'a> {
         Some(())
     }
 
+    /// three or more partial files merged into a FRESH model, in orders where (1) an element first becomes locally
+    /// restricted to a strict subset of the files (it is absent from a later file), (2) a further file contains that
+    /// element again but lacks one of its existing children, or shares its parent but not the element; then the first
+    /// file is removed.  Every load / remove_file is followed by the usual checks (push).
+    fn merge3(&mut self) -> Option<()> {
+        if self.ex.models.len() >= 3 || self.ex.files.len() >= 8 {
+            return Some(());
+        }
+        fn pkg(name: &str, elements: Option<&[String]>, sub: Option<&str>) -> String {
+            let mut t = format!("<AR-PACKAGE><SHORT-NAME>{}</SHORT-NAME>", name);
+            if let Some(els) = elements {
+                t.push_str("<ELEMENTS>");
+                for e in els {
+                    t.push_str(&format!("<SYSTEM><SHORT-NAME>{}</SHORT-NAME></SYSTEM>", e));
+                }
+                t.push_str("</ELEMENTS>");
+            }
+            if let Some(q) = sub {
+                t.push_str(&format!("<AR-PACKAGES><AR-PACKAGE><SHORT-NAME>{}</SHORT-NAME></AR-PACKAGE></AR-PACKAGES>", q));
+            }
+            t.push_str("</AR-PACKAGE>");
+            t
+        }
+        fn doc(pkgs: &[String]) -> Vec<u8> {
+            format!(
+                "<?xml version=\"1.0\" encoding=\"utf-8\"?>\n<AUTOSAR xsi:schemaLocation=\"http://autosar.org/schema/r4.0 {}\" xmlns=\"http://autosar.org/schema/r4.0\" xmlns:xsi=\"http://www.w3.org/2001/XMLSchema-instance\"><AR-PACKAGES>{}</AR-PACKAGES></AUTOSAR>\n",
+                AutosarVersion::LATEST.filename(),
+                pkgs.join("")
+            )
+            .into_bytes()
+        }
+        let s = |x: &str| x.to_string();
+        let variant = self.rng.below(5);
+        let mut texts: Vec<Vec<u8>> = match variant {
+            // the package comes from file 1 only, file 2 brings another package, file 3 has the package again without
+            // (some of) its children
+            0 => vec![doc(&[pkg("Pkg1", Some(&[s("Sys1")]), None)]), doc(&[pkg("Pkg2", None, None)]), doc(&[pkg("Pkg1", None, None)])],
+            1 => vec![
+                doc(&[pkg("Pkg1", Some(&[s("Sys1"), s("Sys2")]), Some("Sub1"))]),
+                doc(&[pkg("Pkg2", Some(&[s("Other")]), None)]),
+                doc(&[pkg("Pkg1", Some(&[s("Sys2")]), None)]),
+                doc(&[pkg("Pkg1", None, Some("Sub1")), pkg("Pkg2", None, None)]),
+            ],
+            // one shared package, every file with an exclusive element; a further file shares the parent only
+            2 => vec![
+                doc(&[pkg("Pkg", Some(&[s("Sys1")]), None)]),
+                doc(&[pkg("Pkg", Some(&[s("Sys2")]), None)]),
+                doc(&[pkg("Pkg", Some(&[s("Sys3")]), None)]),
+                doc(&[pkg("Pkg", Some(&[]), None)]),
+            ],
+            // random subsets of a small pool
+            _ => {
+                let n = 3 + self.rng.below(3) as usize;
+                let mut v = vec![];
+                for _ in 0..n {
+                    let mut pkgs = vec![];
+                    for pn in ["Pkg1", "Pkg2"] {
+                        if self.rng.below(3) == 0 {
+                            continue;
+                        }
+                        let els: Vec<String> = ["Sys1", "Sys2", "Sys3"].iter().filter(|_| self.rng.below(2) == 0).map(|x| x.to_string()).collect();
+                        let with_els = self.rng.below(3) != 0;
+                        let sub = if self.rng.below(3) == 0 { Some("Sub1") } else { None };
+                        pkgs.push(pkg(pn, if with_els { Some(&els) } else { None }, sub));
+                    }
+                    if pkgs.is_empty() {
+                        pkgs.push(pkg("Pkg1", None, None));
+                    }
+                    v.push(doc(&pkgs));
+                }
+                v
+            }
+        };
+        // the orders matter: the recorded shapes as written (variant 0, 1), every order otherwise
+        if variant >= 2 {
+            for i in (1..texts.len()).rev() {
+                let j = self.rng.below(i as u64 + 1) as usize;
+                texts.swap(i, j);
+            }
+        }
+        self.bump("shape_merge3");
+        self.push(Op::NewModel)?;
+        let m = self.ex.models.len() - 1;
+        let first_file = self.ex.files.len();
+        for (k, t) in texts.into_iter().enumerate() {
+            let name = format!("mg{}_{}.arxml", m, k);
+            let strict = self.rng.below(2) == 0;
+            self.push(Op::Load(m, t, name.into_bytes(), strict))?;
+        }
+        // the first file goes: what was attributed to it alone goes with it, the rest is still written somewhere
+        if self.ex.files.len() > first_file && self.rng.below(4) != 0 {
+            self.push(Op::RemoveFile(m, first_file))?;
+        }
+        Some(())
+    }
+
     fn run(&mut self, k: usize, tier: &str) {
         let nfiles = 1 + (k % 4);
         let same_version = k % 3 != 2;
@@ -849,6 +1027,9 @@ impl<'a> Gen<'a> {
             if self.conflict_load(m).is_none() && self.outcome.is_some() { return; }
             // work goes on after the rejected load: a later step must not be confused by what it left
             if self.grow(0).is_none() && self.outcome.is_some() { return; }
+        }
+        if self.enable.iter().any(|e| e == "merge3") && k % 4 == 1 {
+            if self.merge3().is_none() && self.outcome.is_some() { return; }
         }
         let len = if tier == "thorough" { 30 + self.rng.below(50) } else { 15 + self.rng.below(30) };
         let mut tries = 0;
